@@ -15,3 +15,53 @@
 //@ type sylt-parser/src/statement.rs enum NameIdentifier eq=none
 //@ type sylt-parser/src/statement.rs enum StatementKind eq=none
 //@ type sylt-parser/src/statement.rs struct Statement
+
+// ---- shape facts the later phases rely on (C07): an index expression is an integer literal, an
+// `if` has at least one branch. Deep predicates over the parser's AST.
+pub open spec fn pe_shape(e: Expression) -> bool decreases e {
+    match e.kind {
+        ExpressionKind::Get(a) => pa_shape(a),
+        ExpressionKind::Add(a, b) | ExpressionKind::Sub(a, b) | ExpressionKind::Mul(a, b) | ExpressionKind::Div(a, b)
+        | ExpressionKind::AssertEq(a, b) | ExpressionKind::And(a, b) | ExpressionKind::Or(a, b) => pe_shape(*a) && pe_shape(*b),
+        ExpressionKind::Comparison(a, _, b) => pe_shape(*a) && pe_shape(*b),
+        ExpressionKind::Neg(a) | ExpressionKind::Not(a) | ExpressionKind::Parenthesis(a) => pe_shape(*a),
+        ExpressionKind::If(branches) => branches.len() > 0 && forall|i: int| 0 <= i < branches.len() ==> pib_shape(#[trigger] branches[i]),
+        ExpressionKind::Case { to_match, branches, fall_through } => pe_shape(*to_match)
+            && (forall|i: int| 0 <= i < branches.len() ==> pcb_shape(#[trigger] branches[i]))
+            && (match fall_through { Some(b) => forall|i: int| 0 <= i < b.len() ==> ps_shape(#[trigger] b[i]), None => true }),
+        ExpressionKind::Function { body, .. } => forall|i: int| 0 <= i < body.len() ==> ps_shape(#[trigger] body[i]),
+        ExpressionKind::Blob { fields, .. } => forall|i: int| 0 <= i < fields.len() ==> pe_shape((#[trigger] fields[i]).1),
+        ExpressionKind::Tuple(xs) => forall|i: int| 0 <= i < xs.len() ==> pe_shape(#[trigger] xs[i]),
+        ExpressionKind::List(xs) => forall|i: int| 0 <= i < xs.len() ==> pe_shape(#[trigger] xs[i]),
+        ExpressionKind::Float(_) | ExpressionKind::Int(_) | ExpressionKind::Str(_) | ExpressionKind::Bool(_) | ExpressionKind::Nil => true,
+    }
+}
+pub open spec fn pa_shape(a: Assignable) -> bool decreases a {
+    match a.kind {
+        AssignableKind::Read(_) => true,
+        AssignableKind::Variant { enum_ass, value, .. } => pa_shape(*enum_ass) && pe_shape(*value),
+        AssignableKind::Call(f, args) => pa_shape(*f) && forall|i: int| 0 <= i < args.len() ==> pe_shape(#[trigger] args[i]),
+        AssignableKind::ArrowCall(x, f, args) => pe_shape(*x) && pa_shape(*f) && forall|i: int| 0 <= i < args.len() ==> pe_shape(#[trigger] args[i]),
+        AssignableKind::Access(a2, _) => pa_shape(*a2),
+        AssignableKind::Index(a2, idx) => pa_shape(*a2) && idx.kind is Int,
+        AssignableKind::Expression(e) => pe_shape(*e),
+    }
+}
+pub open spec fn pib_shape(b: IfBranch) -> bool decreases b {
+    (match b.condition { Some(c) => pe_shape(c), None => true }) && forall|i: int| 0 <= i < b.body.len() ==> ps_shape(#[trigger] b.body[i])
+}
+pub open spec fn pcb_shape(b: CaseBranch) -> bool decreases b {
+    forall|i: int| 0 <= i < b.body.len() ==> ps_shape(#[trigger] b.body[i])
+}
+pub open spec fn ps_shape(s: Statement) -> bool decreases s {
+    match s.kind {
+        StatementKind::Assignment { target, value, .. } => pa_shape(target) && pe_shape(value),
+        StatementKind::Definition { value, .. } => pe_shape(value),
+        StatementKind::Loop { condition, body } => pe_shape(condition) && ps_shape(*body),
+        StatementKind::Ret { value } => match value { Some(v) => pe_shape(v), None => true },
+        StatementKind::Block { statements } => forall|i: int| 0 <= i < statements.len() ==> ps_shape(#[trigger] statements[i]),
+        StatementKind::StatementExpression { value } => pe_shape(value),
+        _ => true,
+    }
+}
+pub open spec fn pall_shape(ss: Seq<Statement>) -> bool { forall|i: int| 0 <= i < ss.len() ==> ps_shape(#[trigger] ss[i]) }
